@@ -174,7 +174,7 @@ func callChains(p *an.Prog, fn *ssa.Function, pred func(ssa.CallInstruction) boo
 var storePrefix = map[string]string{"LeaseSet2": "3", "MetaLeaseSet": "7", "EncryptedLeaseSet": "5"}
 
 func C05(p *an.Prog, r *an.Report) {
-	r.Explanation = "For every exported Verify* method of the library from which a cryptographic verification primitive (crypto types.Verifier.Verify, ed25519.Verify/VerifyWithOptions) is reachable: (V1) the method is evaluated path-sensitively under the assumption that the primitive fails — no path may then report success — and under the assumption that it succeeds — success must be possible and every success path must have executed the primitive; (V3) assuming the primitive succeeds but (*OfflineSignature).VerifySignature reports false or an error, no success path may have verified with a key derived from the offline signature's transient key; (V2) the key operand of the primitive, sliced backwards across library calls, has only the receiver's own fields as origins (the explicit key parameter for OfflineSignature) — no other parameter, no mutable package-level variable; (V4) the message operand's origins are the receiver's own fields, cover every field of the receiver's struct, and contain as byte constants exactly the DatabaseStore type prefix the specification prescribes (3/7/5, none for LeaseSet and RouterInfo); the signature operand originates from the receiver's signature field. Cryptographic validity itself is trusted to the primitives; that the verified bytes equal the received bytes rests on C01."
+	r.Explanation = "For every exported Verify* method of the library from which a cryptographic verification primitive (crypto types.Verifier.Verify, ed25519.Verify/VerifyWithOptions) is reachable: (V1) the method is evaluated path-sensitively under the assumption that the primitive fails — no path may then report success — and under the assumption that it succeeds — success must be possible and every success path must have executed the primitive; (V3) assuming the primitive succeeds but (*OfflineSignature).VerifySignature reports false or an error, no success path may have verified with a key derived from the offline signature's transient key; (V2) the key operand of the primitive, sliced backwards across library calls, has only the receiver's own fields as origins (the explicit key parameter for OfflineSignature) — no other parameter, no mutable package-level variable; (V4) the message operand's origins are the receiver's own fields, cover every field of the receiver's struct, and contain as byte constants exactly the DatabaseStore type prefix the specification prescribes (3/7/5, none for LeaseSet and RouterInfo); the signature operand originates from the receiver's signature field. Cryptographic validity itself is trusted to the primitives; that the verified bytes equal the received bytes rests on C01. V2 additionally requires a key object held by the receiver to be reached through its KeysAndCert."
 	r.Rule = "obligations per verifier: V1 fail⇒no success, V1 ok⇒success via primitive, V3 per offline failure mode, V2 key origins, V4 message origins/coverage/prefix, signature origin"
 	r.Trusted = []string{"go-i2p/crypto verifiers and crypto/ed25519 are sound signature verifiers", "go/ssa, static callees (verifier interface calls are recognised by method identity)"}
 
